@@ -32,6 +32,8 @@ type edgeRec struct {
 
 type Frame struct {
 	lastExitClos []*closureVal
+	deferPanics  []mergeIn // panics raised inside deferred calls
+	nonNil       map[ssa.Value]*ssa.BasicBlock // pointers already dereferenced (block of the first dereference)
 	spawning     bool
 	vc        *VC
 	fn        *ssa.Function
@@ -633,6 +635,22 @@ func (fr *Frame) step(in ssa.Instruction, st *State, reach string, back map[[2]i
 		T := x.X.Type().Underlying().(*types.Pointer).Elem()
 		ref := fr.val(x.X)
 		fr.safety(st, reach, "nil-deref", fmt.Sprintf("(not (= %s 0))", ref), x.Pos())
+		if fr.inRecoverScope() && !fr.knownNonNil(x.X, x.Block()) {
+			// inside a function that recovers, dereferencing nil is a control-flow
+			// edge to the deferred functions, not an error
+			cond := fmt.Sprintf("(= %s 0)", ref)
+			fr.panics = append(fr.panics, mergeIn{sAnd(reach, cond), st.clone()})
+			reach = vc.def("nonnil", "Bool", sAnd(reach, sNot(cond)))
+			if fr.nonNil == nil {
+				fr.nonNil = map[ssa.Value]*ssa.BasicBlock{}
+			}
+			fr.nonNil[x.X] = x.Block()
+		}
+		if !fr.inRecoverScope() && !vc.safety && !fr.knownNonNil(x.X, x.Block()) {
+			// execution continues past a field access only if the pointer is not nil
+			// (partial correctness; nil dereferences are obligations under the safety flag)
+			vc.assume(reach, fmt.Sprintf("(not (= %s 0))", ref))
+		}
 		a, term := vc.fieldAddr(T, x.Field, ref)
 		fr.vals[x] = vc.def(fr.name(x), "Int", term)
 		if a != nil {
@@ -865,6 +883,24 @@ func (fr *Frame) deferFlag(d *ssa.Defer) string {
 	name := fmt.Sprintf("$defer!%s%d", fr.id, k)
 	fr.vc.hsort[name] = "Bool"
 	return name
+}
+
+// knownNonNil: the pointer cannot be nil here for syntactic reasons (address of a
+// variable or field, fresh allocation, non-nil receiver of the function under
+// verification, or already dereferenced in a dominating block).
+func (fr *Frame) knownNonNil(v ssa.Value, at *ssa.BasicBlock) bool {
+	switch x := v.(type) {
+	case *ssa.Alloc, *ssa.FieldAddr, *ssa.IndexAddr, *ssa.Global, *ssa.MakeClosure, *ssa.FreeVar:
+		return true
+	case *ssa.Parameter:
+		if fr.parent == nil && fr.fn.Signature.Recv() != nil && len(fr.fn.Params) > 0 && fr.fn.Params[0] == x {
+			return fr.spec == nil || !fr.spec.Flags["nil-receiver"]
+		}
+	}
+	if b, ok := fr.nonNil[v]; ok && (b == at || b.Dominates(at)) {
+		return true
+	}
+	return false
 }
 
 func (fr *Frame) inRecoverScope() bool {
